@@ -28,6 +28,11 @@ CHECKS["C05"] = dict(level="model_checking", engine="seqx",
    text="All 81 assignments of 3 timestamps to 4 events (ties, out-of-order arrival, overlapping block/segment ranges) x layouts x GOMAXPROCS {1,2}: size limits, head n, and complete paging with page sizes 1..3 must give the n newest, newest first, every match exactly once. 7 (9) value sets incl. floats closer than 1e-4, sparse and mixed columns x layouts x 9 sort specifications: every pair of results whose order the keys determine must be in order, limits are prefixes, pages under sort concatenate to the sorted sequence.",
    note="Relative order of different kinds (number/text/absent) and of ties is not asserted. Sort-index layouts and the block-scheduler functions (getNextBlocks/getValidRRCs) are not yet driven separately. Known: paging is not stable under ties (two entries).",
    ref="DESIGN.md §4 C05")
+CHECKS["C03"] = dict(level="exploration", engine="seqx",
+   technique="differential bounded-exhaustive enumeration: every (dataset, query) under every configuration (layout x dictionary limit x PQS/aggregation-tree acceleration x GOMAXPROCS) against a baseline configuration, on the real engine",
+   text="Each dataset is loaded twice inside one worker: in the baseline configuration (one open block, no accelerators, one processor) and in configuration k; 27 queries (numeric/text/wildcard/free-text filters, AND/OR/NOT, stats with/without group-by, timechart, sort, eval/where, dedup, top) must return identical normalised answers. k ranges over 8 (quick) / all 162 (thorough) flush/rotate layouts x dictionary limit {2,501} x PQS {off, on with every query registered after the first block so that pqmr bitsets and aggregation trees are written} x GOMAXPROCS {1,4}. The evidence counts configurations in which pqmr / agile-tree / sst / cmi files actually existed.",
+   note="Datasets hold dense single-kind columns only (mixed/sparse columns: C02/C04). Sort-index and CMI-eviction configurations are not yet in the configuration space. One genuine accelerator defect is recorded (dc by group from aggregation trees).",
+   ref="DESIGN.md §4 C03")
 NOT_YET = {}
 props = [json.loads(l) for l in open("properties.jsonl")]
 m = {"version": 1, "setup_cmd": "./vcheck setup",
